@@ -27,6 +27,7 @@
 import Hs.Model.ZincParse
 import Hs.Gen.ScannerRead
 import Hs.Thm.C01
+import Hs.Thm.C04
 import Hs.Lemmas.ZincLazyMain
 import Hs.Lemmas.ZincLazyReenc
 import Hs.Lemmas.ZincLazyBeq
@@ -315,6 +316,22 @@ theorem C11_stable_on_writer_image (v : Val) (h : wfV v = true ∧ depthOk v = t
     fromBytes (encode (asRead (lexImage v))) = .ok (lexImage v) := by
   refine ⟨C01_wf v h, ?_⟩
   rw [C11_encode_lexImage]; exact C01_wf v h
+
+/-- **whatever spelling arrived, one normalisation pass reaches a fixed point** - for EVERY sentence of the Zinc
+grammar (`Hs.Spell.SpellsTop`, the relation of C04: any blanks, LF/CRLF/CR, any escapes, trailing commas, tag
+separators, `:M`, grid layout) that denotes a well-formed value: the text is accepted, and encoding the decoded
+value and decoding again yields the decoded value.  (`wfV` fixes the numerals to the writer's spelling: what a
+non-canonical numeral such as `1_000.5e+3` re-encodes to is a question about `f64`'s printer, decided on the
+implementation; every other freedom of the grammar is covered.) -/
+theorem C11_stable_on_sentences (v : Val) (bs : List UInt8) (hwf : wfV v = true) (hd : depthOk v = true)
+    (hs : Hs.Spell.SpellsTop v bs) :
+    ∃ w, fromBytes bs = .ok w ∧ fromBytes (encode (asRead w)) = .ok w :=
+  ⟨lexImage v, Hs.C04.C04_read_wfV v bs hwf hd hs, (C11_stable_on_writer_image v ⟨hwf, hd⟩).2⟩
+
+/-- non-vacuity: a grid document written with lone CRs, a tab and a blank before line endings, blank lines at
+the end (`Hs.C04.exOuterB`, not the writer's spelling) is such a sentence of a well-formed value -/
+example : ∃ w, fromBytes Hs.C04.exOuterB = .ok w ∧ fromBytes (encode (asRead w)) = .ok w :=
+  C11_stable_on_sentences Hs.C04.exOuterG Hs.C04.exOuterB (by decide +kernel) (by decide +kernel) Hs.C04.exOuter_sp
 
 theorem C11_stable_on_writer_image_noDT (v : Val) (h : wfV v = true ∧ depthOk v = true) (hdt : noDT v = true) :
     fromBytes (encode (lexImage v)) = .ok (lexImage v) := by
